@@ -121,7 +121,7 @@ def gen_check(rng, dtype, rich=True):
 
 
 def gen_column(rng, name, dtype=None, *, backend="pandas", rich=True,
-               regex=False, allow_custom=True):
+               regex=False, allow_custom=True, p_drop=0.1):
     dtype = dtype or rng.choice(["int", "int", "float", "str", "str", "bool",
                                  "dt", "const"])
     col = {"name": name, "dtype": dtype, "checks": [], "nullable": False,
@@ -148,7 +148,7 @@ def gen_column(rng, name, dtype=None, *, backend="pandas", rich=True,
         col["title"] = rng.choice(TITLES)
         col["description"] = rng.choice(DESCS)
         col["metadata"] = copy.deepcopy(rng.choice(METAS))
-        if rng.random() < 0.25:
+        if rng.random() < p_drop:
             col["drop_invalid_rows"] = True
         if backend == "pandas" and rng.random() < 0.25:
             col["report_duplicates"] = rng.choice(["exclude_first", "exclude_last"])
@@ -165,7 +165,7 @@ NAMES = ["a", "b", "c", "d", "e"]
 
 def gen_spec(rng, *, backend="pandas", kind=None, allow_flavors=True,
              min_cols=1, max_cols=4, allow_index=True, allow_regex=True,
-             allow_custom=True, allow_dtz=True):
+             allow_custom=True, allow_dtz=True, p_drop=0.1):
     """Random schema spec.  kind in frame | series | column | model."""
     if kind is None:
         if backend == "polars":
@@ -196,12 +196,13 @@ def gen_spec(rng, *, backend="pandas", kind=None, allow_flavors=True,
             dt = "dtz"
         if kind == "model" and dt is None:
             dt = rng.choice(["int", "float", "str", "bool", "int"])
-        cols.append(gen_column(rng, NAMES[i], dt, backend=backend, rich=rich,
+        cols.append(gen_column(rng, NAMES[i], dt, backend=backend, rich=rich, p_drop=p_drop,
                                allow_custom=allow_custom and kind == "frame"))
-    if allow_regex and rng.random() < 0.3:
+    if allow_regex and not (backend == "polars" and kind == "model") \
+            and rng.random() < 0.3:
         dt = frame_dtype or rng.choice(["int", "float", "str"])
         rc = gen_column(rng, "^r_.*$", dt, backend=backend, rich=rich, regex=True,
-                        allow_custom=allow_custom and kind == "frame")
+                        p_drop=p_drop, allow_custom=allow_custom and kind == "frame")
         rc["unique"] = rc["unique"] and False
         if not rc["checks"]:
             rc["checks"].append(gen_check(rng, dt))
@@ -217,7 +218,7 @@ def gen_spec(rng, *, backend="pandas", kind=None, allow_flavors=True,
     spec["title"] = rng.choice(TITLES)
     spec["description"] = rng.choice(DESCS)
     spec["add_missing_columns"] = rng.random() < 0.15
-    spec["drop_invalid_rows"] = rng.random() < 0.12
+    spec["drop_invalid_rows"] = rng.random() < p_drop
     if plain and rng.random() < 0.25:
         uq = [c["name"] for c in cols
               if c["name"] in plain and c["dtype"] in ("int", "float", "str", "dt")]
@@ -231,7 +232,8 @@ def gen_spec(rng, *, backend="pandas", kind=None, allow_flavors=True,
                 spec["report_duplicates"] = rng.choice(["exclude_first", "exclude_last"])
         # dataframe-level checks
         dfc = []
-        if all(c["dtype"] in NUMERIC for c in cols) and rng.random() < 0.5:
+        if backend == "pandas" and all(c["dtype"] in NUMERIC for c in cols) \
+                and rng.random() < 0.5:
             for k, a, b in rng.sample([("ge", [0], -5), ("lt", [1000], 5000),
                                        ("ne", [777], 777)], rng.randint(1, 2)):
                 c = {"kind": k, "args": a, "bad": b}
@@ -261,6 +263,12 @@ def gen_spec(rng, *, backend="pandas", kind=None, allow_flavors=True,
                                  gen_index_level(rng, "i1", "str")]
                 for lv in spec["index"]:
                     lv["unique"] = False
+            if frame_dtype:      # a frame-level dtype also overrides the index
+                spec["index"] = [gen_index_level(rng, lv["name"], frame_dtype)
+                                 for lv in spec["index"]]
+                if len(spec["index"]) > 1:
+                    for lv in spec["index"]:
+                        lv["unique"] = False
         if backend == "pandas" and allow_flavors and rng.random() < 0.12:
             cand = [c["name"] for c in cols if not c["regex"]]
             if cand:
@@ -384,7 +392,6 @@ def frame_kwargs(pa, spec, polars=False):
     return kw
 
 
-_MODEL_SEQ = [0]
 _FIELD_KW = {"gt": "gt", "ge": "ge", "lt": "lt", "le": "le", "eq": "eq", "ne": "ne",
              "isin": "isin", "notin": "notin", "str_startswith": "str_startswith",
              "str_endswith": "str_endswith", "str_contains": "str_contains",
@@ -432,8 +439,8 @@ def build_model(spec):
     ns["Config"] = type("Config", (), cfg)
     ns["__annotations__"] = ann
     ns["__module__"] = __name__
-    _MODEL_SEQ[0] += 1
-    return type(f"GenModel{_MODEL_SEQ[0]}", (pa.DataFrameModel,), ns)
+    # constant class name: the schema name defaults to it (verdicts mention it)
+    return type("GenModel", (pa.DataFrameModel,), ns)
 
 
 class Built:
@@ -514,6 +521,9 @@ def _pd_index(levels, n, override=None):
     for lv in levels:
         vals = list(POOL[lv["dtype"]])[:n]
         if override and override[0] == lv["name"]:
+            if isinstance(override[1], list):       # whole level, other dtype
+                arrs.append(pd.Index(override[1][:n], name=lv["name"]))
+                continue
             vals[-1] = override[1]
         arrs.append(pd.Index(_values(lv["dtype"], vals), name=lv["name"]))
     if len(arrs) == 1:
@@ -607,11 +617,16 @@ def probes(spec, rng, max_probes=6):
         bad = next((c["bad"] for c in lv["checks"] if c.get("bad") is not None), None)
         if bad is not None:
             cand.append(("bad_index", tab(), {"index_override": (lv["name"], bad)}))
+        lv = spec["index"][-1]
+        other = [7, 8, 9] if lv["dtype"] == "str" else ["1", "2", "3"]
+        cand.append((f"index_wrong_dtype:{'multi' if len(spec['index']) > 1 else 'single'}",
+                     tab(), {"index_override": (lv["name"], other)}))
 
     # choose: always the accepted frame, then a spread of candidates that
     # prefers the hostile classes (regex / dtz / bad checks)
     rng.shuffle(cand)
-    cand.sort(key=lambda x: 0 if (":regex" in x[0] or "tz_other" in x[0]) else
+    cand.sort(key=lambda x: 0 if (":regex" in x[0] or "tz_other" in x[0]
+                                  or "index_wrong" in x[0]) else
               1 if x[0].startswith("bad_") else 2)
     seen, chosen = set(), []
     for tag, t, kw in cand:
